@@ -111,81 +111,88 @@ End ReaderProofs.
 (* ------------------------------------------------------------------------------------------ *)
 (* (2) the shift loop                                                                          *)
 
-(* list form of the loop: [p] is the (already shifted) predecessor *)
+(* list form of the loop: [p] is the (already shifted) predecessor; a date that is not later than it is
+   moved to the day after it *)
 Fixpoint shift_from (p : Z) (l : list Z) : list Z :=
   match l with
   | [] => []
-  | d :: r => let d' := if d =? p then d + 1 else d in d' :: shift_from d' r
+  | d :: r => let d' := if d <=? p then p + 1 else d in d' :: shift_from d' r
   end.
 
 Definition shiftL (l : list Z) : list Z :=
   match l with [] => [] | d :: r => d :: shift_from d r end.
 
-(* no event is dated earlier than the day its predecessor ended up on *)
+Fixpoint strict_from (p : Z) (l : list Z) : Prop :=
+  match l with [] => True | d :: r => p < d /\ strict_from d r end.
+
+Fixpoint ascending_from (p : Z) (l : list Z) : Prop :=
+  match l with [] => True | d :: r => p <= d /\ ascending_from d r end.
+
+(* class of schedules on which every date moves by at most one day: no event is dated earlier than
+   the day its predecessor ended up on *)
 Fixpoint no_overrun (p : Z) (l : list Z) : Prop :=
   match l with
   | [] => True
-  | d :: r => p <= d /\ no_overrun (if d =? p then d + 1 else d) r
+  | d :: r => p <= d /\ no_overrun (if d <=? p then p + 1 else d) r
   end.
-
-Fixpoint no_overrunb (p : Z) (l : list Z) : bool :=
-  match l with
-  | [] => true
-  | d :: r => (p <=? d) && no_overrunb (if d =? p then d + 1 else d) r
-  end.
-
-Lemma no_overrunb_spec p l : no_overrunb p l = true <-> no_overrun p l.
-Proof.
-  revert p; induction l as [|d r IH]; intros p; cbn; [tauto|].
-  rewrite andb_true_iff, Z.leb_le, IH. tauto.
-Qed.
-
-Fixpoint strict_from (p : Z) (l : list Z) : Prop :=
-  match l with [] => True | d :: r => p < d /\ strict_from d r end.
 
 Lemma shift_from_length p l : length (shift_from p l) = length l.
 Proof. revert p; induction l as [|d r IH]; intros p; cbn; [reflexivity | now rewrite IH]. Qed.
 
-Lemma shift_strict p l : no_overrun p l -> strict_from p (shift_from p l).
+(* the repaired loop makes the dates strictly increasing — for every input *)
+Lemma shift_strict p l : strict_from p (shift_from p l).
 Proof.
-  revert p; induction l as [|d r IH]; intros p; cbn; [tauto|].
-  intros [Hle H]. split.
-  - destruct (d =? p) eqn:E; [apply Z.eqb_eq in E | apply Z.eqb_neq in E]; lia.
-  - now apply IH.
+  revert p; induction l as [|d r IH]; intros p; cbn; [exact I|]. split; [|apply IH].
+  destruct (d <=? p) eqn:E; [lia | apply Z.leb_gt in E; lia].
 Qed.
 
-(* every date is moved by 0 or 1 day, and by 1 exactly when it collides with its shifted predecessor *)
 Lemma shift_from_nth p l i :
   (i < length l)%nat ->
   let s := shift_from p l in
   let prev := match i with O => p | S k => nth k s 0 end in
-  nth i s 0 = (if nth i l 0 =? prev then nth i l 0 + 1 else nth i l 0).
+  nth i s 0 = (if nth i l 0 <=? prev then prev + 1 else nth i l 0).
 Proof.
   revert p i; induction l as [|d r IH]; intros p i Hi; cbn [length] in Hi; [lia|].
   destruct i as [|i]; cbn [shift_from nth]; [reflexivity|].
-  specialize (IH (if d =? p then d + 1 else d) i ltac:(lia)). cbn zeta in IH.
+  specialize (IH (if d <=? p then p + 1 else d) i ltac:(lia)). cbn zeta in IH.
   rewrite IH. destruct i; reflexivity.
 Qed.
 
-Lemma shift_from_bounds p l i :
-  (i < length l)%nat -> nth i l 0 <= nth i (shift_from p l) 0 <= nth i l 0 + 1.
+(* never earlier than the file date *)
+Lemma shift_from_ge p l i : (i < length l)%nat -> nth i l 0 <= nth i (shift_from p l) 0.
 Proof.
   intros Hi. pose proof (shift_from_nth p l i Hi) as H. cbn zeta in H. rewrite H.
-  destruct (_ =? _); lia.
+  destruct (_ <=? _) eqn:E; [apply Z.leb_le in E; lia | lia].
+Qed.
+
+(* the least strictly increasing sequence above p that is >= the dates *)
+Lemma shift_from_least p : forall l t,
+  strict_from p t -> length t = length l -> (forall i, (i < length l)%nat -> nth i l 0 <= nth i t 0) ->
+  forall i, (i < length l)%nat -> nth i (shift_from p l) 0 <= nth i t 0.
+Proof.
+  intros l; revert p; induction l as [|d r IH]; intros p t Hs Hl Hge i Hi; cbn [length] in *; [lia|].
+  destruct t as [|e t']; [discriminate|]. cbn [strict_from length] in *. destruct Hs as [Hpe Hs].
+  pose proof (Hge O ltac:(lia)) as H0. cbn [nth] in H0.
+  set (d' := if d <=? p then p + 1 else d).
+  assert (Hd' : d' <= e) by (unfold d'; destruct (d <=? p); lia).
+  destruct i as [|i]; cbn [shift_from nth]; [exact Hd'|].
+  apply (IH d' t'); try lia.
+  - clear -Hs Hd'. destruct t' as [|f t'']; cbn in *; [exact I|]. split; [lia | tauto].
+  - intros j Hj. specialize (Hge (S j) ltac:(lia)). exact Hge.
+Qed.
+
+Lemma no_overrun_bounds p l : no_overrun p l -> forall i, (i < length l)%nat ->
+  nth i (shift_from p l) 0 <= nth i l 0 + 1.
+Proof.
+  revert p; induction l as [|d r IH]; intros p H i Hi; cbn [length] in Hi; [lia|].
+  cbn [no_overrun] in H. destruct H as [Hpd H].
+  destruct i as [|i]; cbn [shift_from nth].
+  - destruct (d <=? p) eqn:E; [apply Z.leb_le in E; lia | lia].
+  - apply IH; [exact H | lia].
 Qed.
 
 Lemma last_nonempty_indep (x : Z) l a b : last (x :: l) a = last (x :: l) b.
 Proof. revert x; induction l as [|y l IH]; intros x; cbn [last]; [reflexivity | apply IH]. Qed.
-
-Lemma shift_from_app p l1 l2 :
-  shift_from p (l1 ++ l2) = shift_from p l1 ++ shift_from (last (shift_from p l1) p) l2.
-Proof.
-  revert p; induction l1 as [|d r IH]; intros p; cbn [app shift_from last]; [reflexivity|].
-  rewrite IH. f_equal. f_equal.
-  destruct (shift_from (if d =? p then d + 1 else d) r) as [|z l] eqn:E; [reflexivity|].
-  f_equal. transitivity (last (z :: l) p); [apply last_nonempty_indep|].
-  cbn [last]. destruct l; reflexivity.
-Qed.
 
 Lemma strict_from_ge p l x : strict_from p l -> In x l -> p < x.
 Proof.
@@ -213,11 +220,11 @@ Proof.
   - repeat split; intros; try reflexivity; lia.
   - destruct l as [|d r]; [discriminate|]. cbn [length] in Hl.
     assert (Hd : a (k + 1) = d) by (specialize (Ha O ltac:(lia)); cbn in Ha; rewrite Z.add_0_r in Ha; exact Ha).
-    set (a1 := if a (k + 1) =? a k then upd a (k + 1) (a (k + 1) + 1) else a).
-    assert (H1 : a1 (k + 1) = (if d =? a k then d + 1 else d)).
-    { unfold a1. rewrite Hd. destruct (d =? a k); [now rewrite upd_same | exact Hd]. }
+    set (a1 := if a (k + 1) <=? a k then upd a (k + 1) (a k + 1) else a).
+    assert (H1 : a1 (k + 1) = (if d <=? a k then a k + 1 else d)).
+    { unfold a1. rewrite Hd. destruct (d <=? a k); [now rewrite upd_same | exact Hd]. }
     assert (Hoth : forall j, j <> k + 1 -> a1 j = a j).
-    { intros j Hj. unfold a1. destruct (_ =? _); [now apply upd_other | reflexivity]. }
+    { intros j Hj. unfold a1. destruct (_ <=? _); [now apply upd_other | reflexivity]. }
     specialize (IH (k + 1) a1 r ltac:(lia)).
     assert (Hpre : forall i, (i < cnt)%nat -> a1 (k + 1 + 1 + Z.of_nat i) = nth i r 0).
     { intros i Hi. rewrite Hoth by lia. specialize (Ha (S i) ltac:(lia)). cbn [nth] in Ha.
@@ -232,8 +239,49 @@ Proof.
     + intros j Hj. rewrite I3 by lia. apply Hoth. lia.
 Qed.
 
-(* ------------------------------------------------------------------------------------------ *)
-(* (3) the day loop                                                                            *)
+(* the irrigation compaction: the slots i .. i+cnt-1 hold the events L; those dated >= B are copied, in order,
+   to the slots kept .. ; nothing below [kept] and nothing from i+cnt on is touched *)
+Section Compact.
+  Context {P : Type} (dflt : P).
+  Lemma compact_spec B : forall cnt i k d p (L : list (Z * P)),
+    k <= i -> length L = cnt ->
+    (forall j, (j < cnt)%nat -> d (i + Z.of_nat j) = fst (nth j L (ev0 dflt)) /\ p (i + Z.of_nat j) = snd (nth j L (ev0 dflt))) ->
+    let '(k', d', p') := compact B i cnt k d p in
+    let K := kept B L in
+    k' = k + Z.of_nat (length K) /\
+    (forall j, (j < length K)%nat -> d' (k + Z.of_nat j) = fst (nth j K (ev0 dflt)) /\ p' (k + Z.of_nat j) = snd (nth j K (ev0 dflt))) /\
+    (forall x, x < k -> d' x = d x /\ p' x = p x).
+  Proof.
+    induction cnt as [|cnt IH]; intros i k d p L Hki Hl Ha; cbn [compact].
+    - destruct L; [|discriminate]. cbn. repeat split; try lia; intros; lia.
+    - destruct L as [|x r]; [discriminate|]. cbn [length] in Hl.
+      destruct (Ha O ltac:(lia)) as [Hd Hp]. cbn [nth] in Hd, Hp. rewrite Z.add_0_r in Hd, Hp.
+      assert (Hk : keptb B x = (B <=? d i)) by (unfold keptb; now rewrite Hd).
+      destruct (B <=? d i) eqn:E.
+      + specialize (IH (i + 1) (k + 1) (upd d k (d i)) (upd p k (p i)) r ltac:(lia) ltac:(lia)).
+        assert (Hpre : forall j, (j < cnt)%nat ->
+                  upd d k (d i) (i + 1 + Z.of_nat j) = fst (nth j r (ev0 dflt)) /\ upd p k (p i) (i + 1 + Z.of_nat j) = snd (nth j r (ev0 dflt))).
+        { intros j Hj. rewrite !upd_other by lia. specialize (Ha (S j) ltac:(lia)). cbn [nth] in Ha.
+          replace (i + 1 + Z.of_nat j) with (i + Z.of_nat (S j)) by lia. exact Ha. }
+        specialize (IH Hpre).
+        assert (HK : kept B (x :: r) = x :: kept B r) by (unfold kept; cbn [filter]; now rewrite Hk).
+        destruct (compact B (i + 1) cnt (k + 1) (upd d k (d i)) (upd p k (p i))) as [[k' d'] p'].
+        cbn zeta in *. rewrite HK. destruct IH as (I1 & I2 & I3). cbn [length].
+        split; [lia|]. split.
+        * intros j Hj. destruct j as [|j]; cbn [nth].
+          -- rewrite Z.add_0_r. destruct (I3 k ltac:(lia)) as [-> ->]. rewrite !upd_same. rewrite Hd, Hp. auto.
+          -- replace (k + Z.of_nat (S j)) with (k + 1 + Z.of_nat j) by lia. apply I2. lia.
+        * intros y Hy. destruct (I3 y ltac:(lia)) as [-> ->]. rewrite !upd_other by lia. auto.
+      + specialize (IH (i + 1) k d p r ltac:(lia) ltac:(lia)).
+        assert (Hpre : forall j, (j < cnt)%nat ->
+                  d (i + 1 + Z.of_nat j) = fst (nth j r (ev0 dflt)) /\ p (i + 1 + Z.of_nat j) = snd (nth j r (ev0 dflt))).
+        { intros j Hj. specialize (Ha (S j) ltac:(lia)). cbn [nth] in Ha.
+          replace (i + 1 + Z.of_nat j) with (i + Z.of_nat (S j)) by lia. exact Ha. }
+        specialize (IH Hpre).
+        assert (HK : kept B (x :: r) = kept B r) by (unfold kept; cbn [filter]; now rewrite Hk).
+        destruct (compact B (i + 1) cnt k d p) as [[k' d'] p']. cbn zeta in *. rewrite HK. exact IH.
+  Qed.
+End Compact.
 
 Section DayLoop.
   Variable a : Z -> Z.
@@ -437,48 +485,43 @@ End PayloadR.
 (* ------------------------------------------------------------------------------------------ *)
 (* composition: reader + shift loop + day loop                                                 *)
 
-Lemma shift_all_repr (a : Z -> Z) (D : list Z) (v : Z) :
+Lemma shift_all_repr (a : Z -> Z) (D : list Z) :
   D <> [] ->
   (forall i, (i < length D)%nat -> a (Z.of_nat i) = nth i D 0) ->
-  a (Z.of_nat (length D)) = v ->
-  v < hd 0 D -> no_overrun (hd 0 D) (tl D) ->
   let a' := shift_all (Z.of_nat (length D)) a in
   (forall i, (i < length D)%nat -> a' (Z.of_nat i) = nth i (shiftL D) 0) /\
-  a' (Z.of_nat (length D)) = v.
+  (forall j, Z.of_nat (length D) <= j -> a' j = a j).
 Proof.
-  destruct D as [|d0 r]; [congruence|]. intros _ Ha Hv Hlt Hno. cbn [hd tl] in *.
-  unfold shift_all. rewrite Nat2Z.id. cbn [length] in *.
+  destruct D as [|d0 r]; [congruence|]. intros _ Ha. cbn [length] in *.
+  unfold shift_all. replace (Z.to_nat (Z.of_nat (S (length r)) - 1)) with (length r) by lia.
   assert (Ha0 : a 0 = d0) by (apply (Ha O); lia).
-  pose proof (shift_arr_spec (S (length r)) 0 a (r ++ [v])) as Sp.
-  rewrite app_length in Sp. cbn [length] in Sp. specialize (Sp ltac:(lia)).
-  assert (Hpre : forall i, (i < S (length r))%nat -> a (0 + 1 + Z.of_nat i) = nth i (r ++ [v]) 0).
-  { intros i Hi. destruct (Nat.eq_dec i (length r)) as [->|Hne].
-    - rewrite app_nth2, Nat.sub_diag by lia. cbn [nth]. rewrite <- Hv. f_equal. lia.
-    - rewrite app_nth1 by lia. specialize (Ha (S i) ltac:(lia)). cbn [nth] in Ha. rewrite <- Ha. f_equal. lia. }
-  specialize (Sp Hpre). cbn zeta in Sp. destruct Sp as (S1 & S2 & _). rewrite Ha0 in S2.
-  pose proof (shift_strict d0 r Hno) as Hst.
+  pose proof (shift_arr_spec (length r) 0 a r eq_refl) as Sp.
+  assert (Hpre : forall i, (i < length r)%nat -> a (0 + 1 + Z.of_nat i) = nth i r 0).
+  { intros i Hi. specialize (Ha (S i) ltac:(lia)). cbn [nth] in Ha. rewrite <- Ha. f_equal. lia. }
+  specialize (Sp Hpre). cbn zeta in Sp. destruct Sp as (S1 & S2 & S3). rewrite Ha0 in S2.
   cbn zeta. split.
   - intros i Hi. destruct i as [|i]; cbn [shiftL nth].
     + rewrite S1 by lia. exact Ha0.
-    + specialize (S2 i ltac:(lia)). replace (Z.of_nat (S i)) with (0 + 1 + Z.of_nat i) by lia.
-      rewrite S2, shift_from_app, app_nth1 by (rewrite shift_from_length; lia). reflexivity.
-  - specialize (S2 (length r) ltac:(lia)). replace (Z.of_nat (S (length r))) with (0 + 1 + Z.of_nat (length r)) by lia.
-    rewrite S2, shift_from_app, app_nth2 by (rewrite shift_from_length; lia).
-    rewrite shift_from_length, Nat.sub_diag. cbn [shift_from nth].
-    pose proof (strict_from_last d0 _ Hst).
-    assert (v =? last (shift_from d0 r) d0 = false) as -> by (apply Z.eqb_neq; lia). reflexivity.
+    + specialize (S2 i ltac:(lia)). replace (Z.of_nat (S i)) with (0 + 1 + Z.of_nat i) by lia. exact S2.
+  - intros j Hj. apply S3. lia.
 Qed.
 
 Lemma shiftL_length D : length (shiftL D) = length D.
 Proof. destruct D; cbn; [reflexivity | now rewrite shift_from_length]. Qed.
 
-Lemma last_shiftL_ge D : D <> [] -> no_overrun (hd 0 D) (tl D) -> hd 0 D <= last (shiftL D) 0.
+Lemma last_shiftL_ge D : D <> [] -> hd 0 D <= last (shiftL D) 0.
 Proof.
-  destruct D as [|d0 r]; [congruence|]. intros _ H. cbn [hd tl shiftL] in *.
-  pose proof (strict_from_last d0 _ (shift_strict d0 r H)) as Hl.
+  destruct D as [|d0 r]; [congruence|]. intros _. cbn [hd shiftL].
+  pose proof (strict_from_last d0 _ (shift_strict d0 r)) as Hl.
   destruct (shift_from d0 r) as [|e r'] eqn:E; [cbn; lia|].
   change (last (d0 :: e :: r') 0) with (last (e :: r') 0).
   rewrite (last_nonempty_indep e r' 0 d0). exact Hl.
+Qed.
+
+Lemma shiftL_strict D : D <> [] -> strict_from (nth 0 (shiftL D) 0 - 1) (shiftL D).
+Proof.
+  destruct D as [|d0 r]; [congruence|]. intros _. cbn [shiftL nth strict_from].
+  split; [lia | apply shift_strict].
 Qed.
 
 Section Composition.
@@ -495,6 +538,16 @@ Section Composition.
     intros Ht HB. destruct (tail_of_cases dflt B t l) as [[-> _]|[->|(x & _ & Hx & ->)]]; cbn; lia.
   Qed.
 
+  Lemma dates_ge B (l : list ev) x : In x (dates (kept B l)) -> B <= x.
+  Proof. unfold dates. intros Hin. apply in_map_iff in Hin as (y & <- & Hy). apply kept_spec in Hy. tauto. Qed.
+
+  Lemma kept_kept B (l : list ev) : 0 <= B -> kept B (kept 0 l) = kept B l.
+  Proof.
+    intros HB. unfold kept. induction l as [|x r IH]; cbn [filter]; [reflexivity|].
+    destruct (keptb 0 x) eqn:E0; destruct (keptb B x) eqn:EB; cbn [filter]; rewrite ?EB, ?IH; try reflexivity.
+    unfold keptb in *. apply Z.leb_le in EB. apply Z.leb_gt in E0. lia.
+  Qed.
+
   (* ---- fertiliser -------------------------------------------------------------------- *)
   Section Fert.
     Variables (B E : Z) (p0 : P) (ls : list (line P)) (steps : Z -> nat).
@@ -502,7 +555,6 @@ Section Composition.
     Hypothesis Hsteps : forall z, (1 <= steps z)%nat.
     Let K := kept B (processed true ls).
     Let D := B :: dates K.               (* slot 0 = residues of the initial crop, dated BEGINN *)
-    Hypothesis Hno : no_overrun B (dates K).
 
     Lemma fert_arrays :
       let s := fert_read dflt B p0 ls in
@@ -524,21 +576,21 @@ Section Composition.
       assert (HlenD : length D = length ([(B, p0)] ++ K)) by (unfold D, dates; cbn; now rewrite map_length).
       assert (Htl : rd_date s (rd_n s) < B).
       { rewrite Rt. apply tail_small; [cbn; lia | exact HB]. }
-      pose proof (shift_all_repr (rd_date s) D (rd_date s (rd_n s))) as Sh.
+      pose proof (shift_all_repr (rd_date s) D) as Sh.
       rewrite <- HlenD in Rn. rewrite <- Rn in Sh.
       assert (HaD : forall i, (i < length D)%nat -> rd_date s (Z.of_nat i) = nth i D 0).
       { intros i Hi. destruct (Rs i ltac:(lia)) as [Rd _]. rewrite Rd.
         destruct i as [|i]; [reflexivity|]. unfold D. cbn [nth app]. now rewrite nth_dates. }
-      specialize (Sh ltac:(unfold D; congruence) HaD eq_refl ltac:(unfold D; cbn; lia) Hno).
+      specialize (Sh ltac:(unfold D; congruence) HaD).
       cbn zeta in Sh. destruct Sh as [Sh1 Sh2].
       cbn zeta. unfold fert_read. fold s0. fold s. cbn [rd_n rd_date rd_pay].
       split; [exact Rn|]. split; [exact Sh1|]. split; [|split].
       - intros i Hi. destruct (Rs (S i) ltac:(cbn; rewrite app_length in *; cbn in *; lia)) as [_ Rp]. exact Rp.
       - destruct (Rs O ltac:(cbn; lia)) as [_ Rp]. exact Rp.
-      - rewrite Sh2. exact Htl.
+      - rewrite Sh2 by lia. exact Htl.
     Qed.
 
-    (* closed form of everything the fertiliser cursor does in BEGINN..ENDE *)
+    (* closed form of everything the fertiliser cursor does in BEGINN..ENDE — for every file content *)
     Lemma fert_closed_form :
       fert_fired (rd_date (fert_read dflt B p0 ls)) steps B E = expected 1 E 0 (shiftL D).
     Proof.
@@ -551,9 +603,9 @@ Section Composition.
         + f_equal. lia.
         + split.
           * intros i Hi. rewrite shiftL_length in Hi. now apply Hd.
-          * unfold D. cbn [shiftL strict_from]. split; [lia|]. now apply shift_strict.
+          * unfold D. cbn [shiftL strict_from]. split; [lia | apply shift_strict].
         + unfold dead_after. rewrite shiftL_length. cbn zeta. rewrite Z.add_0_l, <- Hn.
-          pose proof (last_shiftL_ge D ltac:(unfold D; congruence) Hno) as Hl. unfold D in Hl at 1. cbn [hd] in Hl.
+          pose proof (last_shiftL_ge D ltac:(unfold D; congruence)) as Hl. unfold D in Hl at 1. cbn [hd] in Hl.
           destruct (shiftL D) eqn:Es; [unfold D in Es; discriminate|]. lia.
     Qed.
   End Fert.
@@ -561,21 +613,17 @@ Section Composition.
   (* ---- tillage ------------------------------------------------------------------------- *)
   Section Till.
     Variables (B E : Z) (ls : list (line P)) (steps : Z -> nat).
-    Hypothesis HB : 0 < B.
+    Hypothesis HB : 1 < B.
     Hypothesis Hsteps : forall z, (1 <= steps z)%nat.
     Let K := kept B (processed true ls).
     Let D := dates K.
-    Hypothesis Hno : no_overrun (hd 0 D) (tl D).
-    (* the slot after the last kept event holds the last dropped line when nothing was kept after it;
-       with no kept event at all, a line dated BEGINN-1 there would fire on BEGINN *)
-    Hypothesis Hstale : K = [] -> fst (tail_of dflt B (ev0 dflt) (processed true ls)) <> B - 1.
 
     Lemma till_arrays :
       let s := till_read dflt B ls in
       rd_n s = Z.of_nat (length D) /\
       (forall i, (i < length D)%nat -> rd_date s (Z.of_nat i) = nth i (shiftL D) 0) /\
       (forall i, (i < length K)%nat -> rd_pay s (Z.of_nat i) = snd (nth i K (ev0 dflt))) /\
-      rd_date s (rd_n s) < B /\ (K = [] -> rd_date s (rd_n s) <> B - 1).
+      rd_date s (rd_n s) = 0.
     Proof.
       set (s0 := {| rd_n := 0; rd_date := arr0; rd_pay := pay0 dflt |}).
       assert (R0 : Repr dflt s0 [] (ev0 dflt)).
@@ -584,40 +632,27 @@ Section Composition.
         - now cbn.
         - intros j Hj. now cbn. }
       pose proof (scan_repr dflt B ls true s0 _ _ R0) as R. cbn [app] in R. fold K in R.
-      destruct R as (Rn & Rs & (Rt & _) & _).
+      destruct R as (Rn & Rs & _ & _).
       set (s := rd_scan B true ls s0) in *.
       assert (HlenD : length D = length K) by (unfold D, dates; now rewrite map_length).
-      assert (Htl : rd_date s (rd_n s) < B).
-      { rewrite Rt. apply tail_small; [cbn; lia | exact HB]. }
       cbn zeta. unfold till_read. fold s0. fold s. cbn [rd_n rd_date rd_pay].
       rewrite <- HlenD in Rn.
       assert (HaD : forall i, (i < length D)%nat -> rd_date s (Z.of_nat i) = nth i D 0).
       { intros i Hi. destruct (Rs i ltac:(lia)) as [Rd _]. rewrite Rd. unfold D. now rewrite nth_dates. }
-      destruct D as [|d0 r] eqn:ED.
-      - (* nothing kept: the shift loop does not run *)
-        cbn [length] in *. rewrite Rn. cbn [Z.of_nat shift_all Z.to_nat shift_arr].
-        split; [reflexivity|]. split; [intros i Hi; lia|]. split; [intros i Hi; lia|].
-        rewrite Rn in Htl, Rt. change (Z.of_nat 0) with 0 in *. split; [exact Htl|]. intros HK. specialize (Hstale HK). now rewrite Rt.
-      - assert (Hd0 : B <= d0).
-        { assert (In d0 (dates K)) as Hin by (fold D; rewrite ED; now left).
-          unfold dates in Hin. apply in_map_iff in Hin as (x & <- & Hx). apply kept_spec in Hx. tauto. }
-        pose proof (shift_all_repr (rd_date s) (d0 :: r) (rd_date s (rd_n s))) as Sh.
-        rewrite <- Rn in Sh.
-        specialize (Sh ltac:(congruence) HaD eq_refl ltac:(cbn [hd]; lia) Hno).
-        cbn zeta in Sh. destruct Sh as [Sh1 Sh2].
-        split; [exact Rn|]. split; [exact Sh1|]. split; [|split].
-        + intros i Hi. destruct (Rs i Hi) as [_ Rp]. exact Rp.
-        + rewrite Sh2. exact Htl.
-        + intros HK. exfalso. cbn [length] in HlenD. rewrite HK in HlenD. cbn in HlenD. lia.
+      split; [exact Rn|]. split; [|split; [|now rewrite upd_same]].
+      - intros i Hi. rewrite upd_other by lia.
+        destruct D as [|d0 r] eqn:ED; [cbn in Hi; lia|].
+        pose proof (shift_all_repr (rd_date s) (d0 :: r) ltac:(congruence) HaD) as Sh. cbn zeta in Sh.
+        rewrite Rn. now apply Sh.
+      - intros i Hi. destruct (Rs i Hi) as [_ Rp]. exact Rp.
     Qed.
 
     Lemma till_closed_form :
       till_fired (rd_date (till_read dflt B ls)) steps B E = expected 1 E 0 (shiftL D).
     Proof.
-      destruct till_arrays as (Hn & Hd & _ & Ht & Ht0).
+      destruct till_arrays as (Hn & Hd & _ & Ht).
       unfold till_fired, ndays.
-      assert (HDB : forall x, In x D -> B <= x).
-      { intros x Hin. unfold D, dates in Hin. apply in_map_iff in Hin as (y & <- & Hy). apply kept_spec in Hy. tauto. }
+      assert (HDB : forall x, In x D -> B <= x) by (intros x; apply dates_ge).
       destruct (Z_lt_le_dec E B) as [HE|HE].
       { replace (Z.to_nat (E - B + 1)) with O by lia. cbn [run_days snd].
         destruct D as [|d0 r] eqn:ED; [reflexivity|]. cbn [shiftL expected].
@@ -627,31 +662,25 @@ Section Composition.
       - f_equal. lia.
       - split.
         + intros i Hi. rewrite shiftL_length in Hi. now apply Hd.
-        + destruct D as [|d0 r] eqn:ED; [exact I|]. cbn [shiftL strict_from]. cbn [hd tl] in Hno.
-          split; [specialize (HDB d0 ltac:(now left)); lia | now apply shift_strict].
-      - unfold dead_after. rewrite shiftL_length. cbn zeta. rewrite Z.add_0_l, <- Hn.
-        destruct D as [|d0 r] eqn:ED.
-        + cbn [shiftL]. assert (K = []) as HK by (unfold D, dates in ED; now apply map_eq_nil in ED).
-          specialize (Ht0 HK). lia.
-        + pose proof (last_shiftL_ge (d0 :: r) ltac:(congruence) Hno) as Hl. cbn [hd] in Hl.
-          specialize (HDB d0 ltac:(now left)).
-          destruct (shiftL (d0 :: r)) eqn:Es; [discriminate|]. lia.
+        + destruct D as [|d0 r] eqn:ED; [exact I|]. cbn [shiftL strict_from].
+          split; [specialize (HDB d0 ltac:(now left)); lia | apply shift_strict].
+      - unfold dead_after. rewrite shiftL_length. cbn zeta. rewrite Z.add_0_l, <- Hn, Ht.
+        destruct D as [|d0 r] eqn:ED; [cbn [shiftL]; lia|].
+        pose proof (last_shiftL_ge (d0 :: r) ltac:(congruence)) as Hl. cbn [hd] in Hl.
+        specialize (HDB d0 ltac:(now left)).
+        destruct (shiftL (d0 :: r)) eqn:Es; [discriminate|]. lia.
     Qed.
   End Till.
 
   (* ---- irrigation ---------------------------------------------------------------------- *)
   Section Irr.
-    (* [B0] = value of g.BEGINN while the irrigation file is read (0: BEGINN is only set later, input.go:590),
-       [B] = first day of the loop *)
-    Variables (B0 B E : Z) (ls : list (line P)).
+    Variables (B E : Z) (ls : list (line P)).
     Hypothesis HB : 0 < B.
-    Let K := kept B0 (processed true ls).
+    Let K := kept B (processed true ls).
     Let D := dates K.
-    (* at most one irrigation per day, ascending: the kept dates are strictly increasing *)
-    Hypothesis Hstrict : strict_from (B - 1) D.
 
     Lemma irr_arrays :
-      let s := irr_read dflt B0 ls in
+      let s := irr_read dflt B ls in
       rd_n s = Z.of_nat (length D) /\
       (forall i, (i < length D)%nat -> rd_date s (Z.of_nat i) = nth i D 0) /\
       (forall i, (i < length K)%nat -> rd_pay s (Z.of_nat i) = snd (nth i K (ev0 dflt))) /\
@@ -663,22 +692,34 @@ Section Composition.
         - intros i Hi. lia.
         - now cbn.
         - intros j Hj. now cbn. }
-      pose proof (scan_repr dflt B0 ls true s0 _ _ R0) as R. cbn [app] in R. fold K in R.
+      pose proof (scan_repr dflt 0 ls true s0 _ _ R0) as R. cbn [app] in R.
       destruct R as (Rn & Rs & _ & _).
-      set (s := rd_scan B0 true ls s0) in *.
+      set (s := rd_scan 0 true ls s0) in *.
+      set (K0 := kept 0 (processed true ls)) in *.
+      pose proof (compact_spec dflt B (length K0) 0 0 (rd_date s) (rd_pay s) K0 ltac:(lia) eq_refl) as C.
+      assert (Hpre : forall j, (j < length K0)%nat ->
+                rd_date s (0 + Z.of_nat j) = fst (nth j K0 (ev0 dflt)) /\ rd_pay s (0 + Z.of_nat j) = snd (nth j K0 (ev0 dflt))).
+      { intros j Hj. rewrite Z.add_0_l. now apply Rs. }
+      specialize (C Hpre).
+      cbn zeta. unfold irr_read. fold s0. fold s. rewrite Rn, Nat2Z.id.
+      destruct (compact B 0 (length K0) 0 (rd_date s) (rd_pay s)) as [[k' d'] p'].
+      cbn zeta in C. unfold K0 in C. rewrite kept_kept in C by lia. fold K in C.
+      destruct C as (C1 & C2 & _). rewrite Z.add_0_l in C1.
       assert (HlenD : length D = length K) by (unfold D, dates; now rewrite map_length).
-      cbn zeta. unfold irr_read. fold s0. fold s. cbn [rd_n rd_date rd_pay].
-      rewrite <- HlenD in Rn.
-      split; [exact Rn|]. split; [|split].
-      - intros i Hi. assert (Z.of_nat i <? rd_n s = true) as -> by (apply Z.ltb_lt; lia).
-        destruct (Rs i ltac:(lia)) as [Rd _]. rewrite Rd. unfold D. now rewrite nth_dates.
-      - intros i Hi. assert (Z.of_nat i <? rd_n s = true) as -> by (apply Z.ltb_lt; lia).
-        destruct (Rs i Hi) as [_ Rp]. exact Rp.
-      - intros j Hj. assert (j <? rd_n s = false) as -> by (apply Z.ltb_ge; lia). reflexivity.
+      cbn [rd_n rd_date rd_pay]. rewrite HlenD.
+      split; [exact C1|]. split; [|split].
+      - intros i Hi. assert (Z.of_nat i <? k' = true) as -> by (apply Z.ltb_lt; lia).
+        destruct (C2 i Hi) as [Cd _]. rewrite Z.add_0_l in Cd. rewrite Cd. unfold D. now rewrite nth_dates.
+      - intros i Hi. assert (Z.of_nat i <? k' = true) as -> by (apply Z.ltb_lt; lia).
+        destruct (C2 i Hi) as [_ Cp]. rewrite Z.add_0_l in Cp. exact Cp.
+      - intros j Hj. assert (j <? k' = false) as -> by (apply Z.ltb_ge; lia). reflexivity.
     Qed.
 
+    (* at most one irrigation per day, ascending: the kept dates are strictly increasing *)
+    Hypothesis Hstrict : strict_from (B - 1) D.
+
     Lemma irr_closed_form :
-      irr_fired (rd_date (irr_read dflt B0 ls)) B E = expected_once 0 E 0 D.
+      irr_fired (rd_date (irr_read dflt B ls)) B E = expected_once 0 E 0 D.
     Proof.
       destruct irr_arrays as (Hn & Hd & _ & Hz).
       unfold irr_fired, ndays.
@@ -698,10 +739,13 @@ Section Composition.
 End Composition.
 
 (* ------------------------------------------------------------------------------------------ *)
-(* the class of schedules the one-pass shift handles, stated on the input dates only:
-   every group of consecutive events fits into the days from its first date to its last date + 1,
-   and the k-th event is dated at least k days after the occupied day p *)
+(* on time: how far a date can move                                                            *)
 
+(* class of schedules on which no date moves by more than one day, stated on the input dates only:
+   every group of consecutive events fits into the days from its first date to its last date + 1,
+   and the k-th event is dated at least k days after the occupied day p.  It contains all strictly
+   ascending schedules, same-day pairs and pairs followed by events on the next days; it excludes three
+   events on one day and a same-day pair reached by a displacement. *)
 Definition fits (p : Z) (l : list Z) : Prop :=
   (forall j, (j < length l)%nat -> p + Z.of_nat j <= nth j l 0) /\
   (forall i j, (i < j)%nat -> (j < length l)%nat -> Z.of_nat j - Z.of_nat i - 1 <= nth j l 0 - nth i l 0).
@@ -713,24 +757,73 @@ Proof.
   - cbn [no_overrun]. rewrite IH. unfold fits. cbn [length]. split.
     + intros (Hpd & H1 & H2). split.
       * intros [|j] Hj; cbn [nth]; [lia|]. specialize (H1 j ltac:(lia)).
-        destruct (d =? p) eqn:E; [apply Z.eqb_eq in E | apply Z.eqb_neq in E]; lia.
+        destruct (d <=? p) eqn:E; [apply Z.leb_le in E | apply Z.leb_gt in E]; lia.
       * intros i [|j] Hij Hj; [lia|]. destruct i as [|i]; cbn [nth].
         -- specialize (H1 j ltac:(lia)).
-           destruct (d =? p) eqn:E; [apply Z.eqb_eq in E | apply Z.eqb_neq in E]; lia.
+           destruct (d <=? p) eqn:E; [apply Z.leb_le in E | apply Z.leb_gt in E]; lia.
         -- specialize (H2 i j ltac:(lia) ltac:(lia)). lia.
-    + intros (H1 & H2). split; [specialize (H1 O ltac:(lia)); cbn in H1; lia|]. split.
-      * intros j Hj. destruct (d =? p) eqn:E; [apply Z.eqb_eq in E | apply Z.eqb_neq in E].
+    + intros (H1 & H2). pose proof (H1 O ltac:(lia)) as H0. cbn in H0.
+      split; [lia|]. split.
+      * intros j Hj. destruct (d <=? p) eqn:E; [apply Z.leb_le in E | apply Z.leb_gt in E].
         -- specialize (H1 (S j) ltac:(lia)). cbn [nth] in H1. lia.
         -- specialize (H2 O (S j) ltac:(lia) ltac:(lia)). cbn [nth] in H2. lia.
       * intros i j Hij Hj. specialize (H2 (S i) (S j) ltac:(lia) ltac:(lia)). cbn [nth] in H2. lia.
 Qed.
 
 (* strictly increasing dates are never moved *)
-Lemma strict_shift_id : forall l p, strict_from p l -> shift_from p l = l /\ no_overrun p l.
+Lemma strict_shift_id : forall l p, strict_from p l -> shift_from p l = l.
 Proof.
-  induction l as [|d r IH]; intros p; cbn; [tauto|].
-  intros [H1 H2]. assert (d =? p = false) as -> by (apply Z.eqb_neq; lia).
-  destruct (IH d H2) as [-> Hn]. repeat split; [lia | exact Hn].
+  induction l as [|d r IH]; intros p; cbn; [reflexivity|].
+  intros [H1 H2]. assert (d <=? p = false) as -> by (apply Z.leb_gt; lia). now rewrite IH.
+Qed.
+
+Lemma strict_from_weaken p q l : q <= p -> strict_from p l -> strict_from q l.
+Proof. destruct l as [|d r]; cbn; [tauto|]. intros H [H1 H2]. split; [lia | exact H2]. Qed.
+
+(* every date waits for itself or, when it is not later than the day its predecessor was moved to, for the day
+   after that; the results are strictly increasing and never earlier than the file dates *)
+Lemma shiftL_on_time D : D <> [] ->
+  let Sh := shiftL D in
+  length Sh = length D /\ nth 0 Sh 0 = nth 0 D 0 /\
+  (forall i, (i < length D)%nat -> nth i D 0 <= nth i Sh 0) /\
+  (forall i, (S i < length D)%nat ->
+     nth (S i) Sh 0 = (if nth (S i) D 0 <=? nth i Sh 0 then nth i Sh 0 + 1 else nth (S i) D 0) /\
+     nth i Sh 0 < nth (S i) Sh 0).
+Proof.
+  destruct D as [|d0 r]; [congruence|]. intros _. cbn zeta.
+  split; [apply shiftL_length|]. split; [reflexivity|]. split.
+  - intros [|i] Hi; cbn [shiftL nth]; [lia|]. apply shift_from_ge. cbn in Hi; lia.
+  - intros i Hi. cbn [length] in Hi. cbn [shiftL nth].
+    pose proof (shift_from_nth d0 r i ltac:(lia)) as Hn. cbn zeta in Hn.
+    assert (Hprev : match i with O => d0 | S k => nth k (shift_from d0 r) 0 end = nth i (d0 :: shift_from d0 r) 0)
+      by (destruct i; reflexivity).
+    rewrite Hprev in Hn. split; [exact Hn|].
+    pose proof (shift_strict d0 r) as Hst.
+    clear Hn Hprev. revert i Hi. generalize dependent d0. induction r as [|d r IH]; intros d0 Hst i Hi; [cbn in Hi; lia|].
+    cbn [shift_from strict_from] in *. destruct Hst as [Hlt Hst].
+    destruct i as [|i]; cbn [nth]; [exact Hlt|]. apply (IH _ Hst i). cbn [length] in Hi. lia.
+Qed.
+
+(* ... and they are the LEAST strictly increasing dates that are not earlier than the file dates *)
+Lemma shiftL_least D (t : list Z) : D <> [] ->
+  length t = length D -> strict_from (nth 0 t 0 - 1) t -> (forall i, (i < length D)%nat -> nth i D 0 <= nth i t 0) ->
+  forall i, (i < length D)%nat -> nth i (shiftL D) 0 <= nth i t 0.
+Proof.
+  destruct D as [|d0 r]; [congruence|]. intros _ Hl Hs Hge i Hi.
+  destruct t as [|t0 t']; [discriminate|]. cbn [length nth strict_from shiftL] in *. destruct Hs as [_ Hs].
+  pose proof (Hge O ltac:(lia)) as H0. cbn [nth] in H0.
+  destruct i as [|i]; cbn [nth]; [exact H0|].
+  apply (shift_from_least d0 r t'); try lia.
+  - now apply (strict_from_weaken t0).
+  - intros j Hj. exact (Hge (S j) ltac:(lia)).
+Qed.
+
+(* in the class [fits] (at most two per day, no pair reached by a displacement) nothing moves by more than a day *)
+Lemma shiftL_one_day D : D <> [] -> fits (hd 0 D) (tl D) ->
+  forall i, (i < length D)%nat -> nth i (shiftL D) 0 <= nth i D 0 + 1.
+Proof.
+  destruct D as [|d0 r]; [congruence|]. intros _ Hf i Hi. apply no_overrun_iff_fits in Hf. cbn [hd tl] in Hf.
+  destruct i as [|i]; cbn [shiftL nth]; [lia|]. apply no_overrun_bounds; [exact Hf | cbn in Hi; lia].
 Qed.
 
 (* ------------------------------------------------------------------------------------------ *)
@@ -770,36 +863,6 @@ Proof.
   - intros z s k Hin. apply in_map_iff in Hin as ([[z' s'] k'] & Heq & Hin). inversion Heq; subst.
     destruct (H2 _ _ _ Hin) as (_ & Hk & Hz & HE). auto.
   - rewrite map_map. erewrite map_ext; [exact H3|]. intros [[? ?] ?]. reflexivity.
-Qed.
-
-Lemma shiftL_strict D : D <> [] -> no_overrun (hd 0 D) (tl D) -> strict_from (nth 0 (shiftL D) 0 - 1) (shiftL D).
-Proof.
-  destruct D as [|d0 r]; [congruence|]. intros _ H. cbn [hd tl shiftL nth strict_from] in *.
-  split; [lia | now apply shift_strict].
-Qed.
-
-(* on time: every date moves by 0 or 1 day; by 1 exactly when it collides with its (shifted)
-   predecessor; the results are strictly increasing *)
-Lemma shiftL_on_time D : D <> [] -> no_overrun (hd 0 D) (tl D) ->
-  let Sh := shiftL D in
-  length Sh = length D /\ nth 0 Sh 0 = nth 0 D 0 /\
-  (forall i, (i < length D)%nat -> nth i D 0 <= nth i Sh 0 <= nth i D 0 + 1) /\
-  (forall i, (S i < length D)%nat ->
-     nth (S i) Sh 0 = (if nth (S i) D 0 =? nth i Sh 0 then nth (S i) D 0 + 1 else nth (S i) D 0) /\
-     nth i Sh 0 < nth (S i) Sh 0).
-Proof.
-  destruct D as [|d0 r]; [congruence|]. intros _ H. cbn [hd tl] in H. cbn zeta.
-  split; [apply shiftL_length|]. split; [reflexivity|]. split.
-  - intros [|i] Hi; cbn [shiftL nth]; [lia|]. apply shift_from_bounds. cbn in Hi; lia.
-  - intros i Hi. cbn [length] in Hi. cbn [shiftL nth].
-    pose proof (shift_from_nth d0 r i ltac:(lia)) as Hn. cbn zeta in Hn.
-    assert (Hprev : match i with O => d0 | S k => nth k (shift_from d0 r) 0 end = nth i (d0 :: shift_from d0 r) 0)
-      by (destruct i; reflexivity).
-    rewrite Hprev in Hn. split; [exact Hn|].
-    pose proof (shift_strict d0 r H) as Hst.
-    clear Hn Hprev. revert i Hi. generalize dependent d0. induction r as [|d r IH]; intros d0 H Hst i Hi; [cbn in Hi; lia|].
-    cbn [shift_from strict_from no_overrun] in *. destruct Hst as [Hlt Hst]. destruct H as [_ H].
-    destruct i as [|i]; cbn [nth]; [exact Hlt|]. apply (IH _ H Hst i). cbn [length] in Hi. lia.
 Qed.
 
 (* sub-step safety: the fired list does not depend on how many sub-steps the days have *)
@@ -867,45 +930,43 @@ Proof.
 Qed.
 
 (* ------------------------------------------------------------------------------------------ *)
-(* witnesses: schedules of the stated class (ascending, at most two per day) that the code does
-   not carry out                                                                               *)
-
-Fixpoint ascending (l : list Z) : bool :=
-  match l with
-  | a :: ((b :: _) as r) => (a <=? b) && ascending r
-  | _ => true
-  end.
-Fixpoint at_most_two_per_day (l : list Z) : bool :=
-  match l with
-  | a :: ((b :: c :: _) as r) => negb ((a =? b) && (b =? c)) && at_most_two_per_day r
-  | _ => true
-  end.
+(* regression examples: the schedules that the code before /repo 1398842, 0cb3a63, 8d06013 did not
+   carry out (former witnesses of refutation) are carried out now                                *)
 
 Definition one_step : Z -> nat := fun _ => 1%nat.
 Definition mk_lines (ds : list Z) : list (line unit) := map (fun d => Mine d tt) ds.
 
-(* F18: two fertilisations dated on the start day (100); the third one (day 150) and the second
-   never fire: only slots 0 (residues) and 1 are carried out *)
-Lemma f18_witness :
-  let ds := [100; 100; 150] in
-  ascending ds = true /\ at_most_two_per_day ds = true /\
-  fert_fired (rd_date (fert_read tt 100 tt (mk_lines ds))) one_step 100 400 = [(101, 1, 0); (102, 1, 1)].
-Proof. vm_compute. auto. Qed.
-
-(* a same-day pair on the day after a same-day pair: the fourth and every later event never fire
-   (fertiliser: slots 1..5 are the five lines; tillage: slots 0..4) *)
-Lemma pair_after_pair_witness :
-  let ds := [200; 200; 201; 201; 300] in
-  ascending ds = true /\ at_most_two_per_day ds = true /\
-  fert_fired (rd_date (fert_read tt 100 tt (mk_lines ds))) one_step 100 400 = [(101, 1, 0); (201, 1, 1); (202, 1, 2); (203, 1, 3)] /\
-  till_fired (rd_date (till_read tt 100 (mk_lines ds))) one_step 100 400 = [(201, 1, 0); (202, 1, 1); (203, 1, 2)].
-Proof. vm_compute. auto. Qed.
-
-(* a tillage dated the day before the start with no later tillage of the field is carried out on
-   the start day *)
-Lemma prestart_tillage_witness :
-  till_fired (rd_date (till_read tt 100 (mk_lines [90; 99]))) one_step 100 400 = [(100, 1, 0)].
+(* F18: two fertilisations dated on the start day (100): residues on 101, then 102, 103; the third on 151 *)
+Lemma f18_example :
+  fert_fired (rd_date (fert_read tt 100 tt (mk_lines [100; 100; 150]))) one_step 100 400
+  = [(101, 1, 0); (102, 1, 1); (103, 1, 2); (151, 1, 3)].
 Proof. vm_compute. reflexivity. Qed.
+
+(* F18b: a same-day pair on the day after a same-day pair; three events on one day *)
+Lemma pair_after_pair_example :
+  fert_fired (rd_date (fert_read tt 100 tt (mk_lines [200; 200; 201; 201; 300]))) one_step 100 400
+  = [(101, 1, 0); (201, 1, 1); (202, 1, 2); (203, 1, 3); (204, 1, 4); (301, 1, 5)] /\
+  till_fired (rd_date (till_read tt 100 (mk_lines [200; 200; 201; 201; 300]))) one_step 100 400
+  = [(201, 1, 0); (202, 1, 1); (203, 1, 2); (204, 1, 3); (301, 1, 4)] /\
+  till_fired (rd_date (till_read tt 100 (mk_lines [200; 200; 200]))) one_step 100 400
+  = [(201, 1, 0); (202, 1, 1); (203, 1, 2)].
+Proof. vm_compute. auto. Qed.
+
+(* F22: tillages dated before the start, the last one on BEGINN-1: nothing is carried out *)
+Lemma prestart_tillage_example :
+  till_fired (rd_date (till_read tt 100 (mk_lines [90; 99]))) one_step 100 400 = [].
+Proof. vm_compute. reflexivity. Qed.
+
+(* F23: an irrigation dated before the start is dropped, the later ones are applied on their dates *)
+Lemma prestart_irrigation_example :
+  irr_fired (rd_date (irr_read tt 100 (mk_lines [90; 150; 200]))) 100 400 = [(150, 0, 0); (200, 0, 1)].
+Proof. vm_compute. reflexivity. Qed.
+
+Lemma cascade_example :
+  fits 100 [200; 200; 201] /\
+  fert_fired (rd_date (fert_read tt 100 tt (mk_lines [90; 200; 200; 201]))) one_step 100 400
+  = [(101, 1, 0); (201, 1, 1); (202, 1, 2); (203, 1, 3)].
+Proof. split; [apply no_overrun_iff_fits; cbn; repeat split; lia | vm_compute; reflexivity]. Qed.
 
 (* ------------------------------------------------------------------------------------------ *)
 (* packaged statements for Prop_C10.v                                                          *)
@@ -916,91 +977,74 @@ Section Packaged.
 
   Lemma c10_exact_once_fert B E p0 (ls : list (line P)) steps :
     0 < B -> (forall z, (1 <= steps z)%nat) ->
-    fits B (dates (K B ls)) ->
     exactly_once_in_order (fert_fired (rd_date (fert_read dflt B p0 ls)) steps B E)
                           (shiftL (B :: dates (K B ls))) 1 E 1.
   Proof.
-    intros HB Hs Hf. apply no_overrun_iff_fits in Hf.
-    rewrite (fert_closed_form dflt B E p0 ls steps HB Hs Hf).
-    apply expected_bundle. apply shiftL_strict; [congruence | exact Hf].
+    intros HB Hs. rewrite (fert_closed_form dflt B E p0 ls steps HB Hs).
+    apply expected_bundle. apply shiftL_strict. congruence.
   Qed.
 
   Lemma c10_exact_once_till B E (ls : list (line P)) steps :
-    0 < B -> (forall z, (1 <= steps z)%nat) ->
-    let D := dates (K B ls) in
-    fits (hd 0 D) (tl D) ->
-    (K B ls = [] -> fst (tail_of dflt B (ev0 dflt) (processed true ls)) <> B - 1) ->
-    exactly_once_in_order (till_fired (rd_date (till_read dflt B ls)) steps B E) (shiftL D) 1 E 1.
+    1 < B -> (forall z, (1 <= steps z)%nat) ->
+    exactly_once_in_order (till_fired (rd_date (till_read dflt B ls)) steps B E) (shiftL (dates (K B ls))) 1 E 1.
   Proof.
-    intros HB Hs D Hf Hst. apply no_overrun_iff_fits in Hf.
-    rewrite (till_closed_form dflt B E ls steps HB Hs Hf Hst). fold D.
-    destruct D as [|d0 r] eqn:ED.
+    intros HB Hs. rewrite (till_closed_form dflt B E ls steps HB Hs).
+    destruct (dates (K B ls)) as [|d0 r] eqn:ED.
     - cbn. split; [intros i Hi; cbn in Hi; lia|]. split; [intros z s k []|constructor].
-    - apply expected_bundle. apply shiftL_strict; [congruence | exact Hf].
+    - apply expected_bundle. apply shiftL_strict. congruence.
   Qed.
 
   Lemma c10_exact_once_irr B E (ls : list (line P)) :
     0 < B ->
-    let D := dates (K 0 ls) in
+    let D := dates (K B ls) in
     strict_from (B - 1) D ->
-    exactly_once_in_order (irr_fired (rd_date (irr_read dflt 0 ls)) B E) D 0 E 0.
+    exactly_once_in_order (irr_fired (rd_date (irr_read dflt B ls)) B E) D 0 E 0.
   Proof.
-    intros HB D Hs. rewrite (irr_closed_form dflt 0 B E ls HB Hs). fold D.
+    intros HB D Hs. rewrite (irr_closed_form dflt B E ls HB Hs). fold D.
     destruct D as [|d0 r] eqn:ED.
     - cbn. split; [intros i Hi; cbn in Hi; lia|]. split; [intros z s k []|constructor].
     - apply expected_once_bundle. cbn [nth strict_from] in *. split; [lia | tauto].
   Qed.
 
-  Lemma c10_on_time D : D <> [] -> fits (hd 0 D) (tl D) ->
-    let Sh := shiftL D in
-    length Sh = length D /\ nth 0 Sh 0 = nth 0 D 0 /\
-    (forall i, (i < length D)%nat -> nth i D 0 <= nth i Sh 0 <= nth i D 0 + 1) /\
-    (forall i, (S i < length D)%nat ->
-       nth (S i) Sh 0 = (if nth (S i) D 0 =? nth i Sh 0 then nth (S i) D 0 + 1 else nth (S i) D 0) /\
-       nth i Sh 0 < nth (S i) Sh 0).
-  Proof. intros Hne Hf. apply no_overrun_iff_fits in Hf. now apply shiftL_on_time. Qed.
-
   Lemma c10_strict_not_moved D : strict_from (hd 0 D - 1) D -> shiftL D = D.
   Proof.
     destruct D as [|d0 r]; [reflexivity|]. cbn [hd strict_from shiftL]. intros [_ H].
-    now destruct (strict_shift_id r d0 H) as [-> _].
+    now rewrite (strict_shift_id r d0 H).
   Qed.
 
   Lemma c10_pre_start B p0 (ls : list (line P)) :
-    0 < B -> fits B (dates (K B ls)) ->
+    0 < B ->
     let s := fert_read dflt B p0 ls in
     (forall x, In x (K B ls) <-> In x (processed true ls) /\ B <= fst x) /\
     rd_n s = 1 + Z.of_nat (length (K B ls)) /\
     (forall i, (i < length (K B ls))%nat -> rd_pay s (Z.of_nat (S i)) = snd (nth i (K B ls) (ev0 dflt))) /\
     rd_pay s 0 = p0.
   Proof.
-    intros HB Hf. apply no_overrun_iff_fits in Hf.
-    destruct (fert_arrays dflt B p0 ls HB Hf) as (Hn & _ & Hp & H0 & _). cbn zeta.
+    intros HB.
+    destruct (fert_arrays dflt B p0 ls HB) as (Hn & _ & Hp & H0 & _). cbn zeta.
     split; [intros x; apply kept_spec|]. split; [|split; [exact Hp | exact H0]].
     rewrite Hn. cbn [length]. unfold dates. rewrite map_length. lia.
   Qed.
 
   Lemma c10_pre_start_till B (ls : list (line P)) :
-    0 < B ->
-    let D := dates (K B ls) in
-    fits (hd 0 D) (tl D) ->
-    (K B ls = [] -> fst (tail_of dflt B (ev0 dflt) (processed true ls)) <> B - 1) ->
     let s := till_read dflt B ls in
     rd_n s = Z.of_nat (length (K B ls)) /\
-    (forall i, (i < length (K B ls))%nat -> rd_pay s (Z.of_nat i) = snd (nth i (K B ls) (ev0 dflt))).
+    (forall i, (i < length (K B ls))%nat -> rd_pay s (Z.of_nat i) = snd (nth i (K B ls) (ev0 dflt))) /\
+    rd_date s (rd_n s) = 0.
   Proof.
-    intros HB D Hf Hst. apply no_overrun_iff_fits in Hf.
-    destruct (till_arrays dflt B ls HB Hf Hst) as (Hn & _ & Hp & _). cbn zeta.
-    split; [|exact Hp]. rewrite Hn. unfold dates. now rewrite map_length.
+    destruct (till_arrays dflt B ls) as (Hn & _ & Hp & Hz). cbn zeta.
+    split; [|split; [exact Hp | exact Hz]]. rewrite Hn. unfold dates. now rewrite map_length.
   Qed.
 
-  Lemma c10_irr_payload (ls : list (line P)) :
-    let s := irr_read dflt 0 ls in
-    rd_n s = Z.of_nat (length (K 0 ls)) /\
-    (forall i, (i < length (K 0 ls))%nat -> rd_pay s (Z.of_nat i) = snd (nth i (K 0 ls) (ev0 dflt))).
+  Lemma c10_pre_start_irr B (ls : list (line P)) :
+    0 < B ->
+    let s := irr_read dflt B ls in
+    rd_n s = Z.of_nat (length (K B ls)) /\
+    (forall i, (i < length (K B ls))%nat -> rd_pay s (Z.of_nat i) = snd (nth i (K B ls) (ev0 dflt))) /\
+    (forall j, rd_n s <= j -> rd_date s j = 0).
   Proof.
-    destruct (irr_arrays dflt 0 ls) as (Hn & _ & Hp & _). cbn zeta.
-    split; [|exact Hp]. rewrite Hn. unfold dates. now rewrite map_length.
+    intros HB. destruct (irr_arrays dflt B ls HB) as (Hn & _ & Hp & Hz). cbn zeta.
+    split; [|split; [exact Hp | exact Hz]]. rewrite Hn. unfold dates. now rewrite map_length.
   Qed.
 End Packaged.
 
@@ -1064,56 +1108,3 @@ Section PackagedR.
     - split; [tauto | auto].
   Qed.
 End PackagedR.
-
-(* the full-strength statement (ascending dates, at most two events per day, all inside the
-   period) is false of the faithful model: *)
-Lemma c10_exact_once_refuted :
-  exists (B E : Z) (ds : list Z),
-    ascending ds = true /\ at_most_two_per_day ds = true /\
-    (forall d, In d ds -> B <= d /\ d + 3 <= E) /\
-    (length (fert_fired (rd_date (fert_read tt B tt (mk_lines ds))) one_step B E) < 1 + length ds)%nat.
-Proof.
-  exists 100, 400, [100; 100; 150]. destruct f18_witness as (H1 & H2 & H3). rewrite H3.
-  repeat split; try assumption; try (cbn; lia); destruct H as [<-|[<-|[<-|[]]]]; lia.
-Qed.
-
-Lemma c10_pair_after_pair_refuted :
-  exists (B E : Z) (ds : list Z),
-    ascending ds = true /\ at_most_two_per_day ds = true /\
-    (forall d, In d ds -> B < d /\ d + 5 <= E) /\
-    (length (fert_fired (rd_date (fert_read tt B tt (mk_lines ds))) one_step B E) < 1 + length ds)%nat /\
-    (length (till_fired (rd_date (till_read tt B (mk_lines ds))) one_step B E) < length ds)%nat.
-Proof.
-  exists 100, 400, [200; 200; 201; 201; 300]. destruct pair_after_pair_witness as (H1 & H2 & H3 & H4). rewrite H3, H4.
-  repeat split; try assumption; try (cbn; lia); destruct H as [<-|[<-|[<-|[<-|[<-|[]]]]]]; lia.
-Qed.
-
-(* g.BEGINN is still 0 when the irrigation file is read: an irrigation dated before the start is kept,
-   the cursor waits for it forever, and every later irrigation of the field is lost *)
-Lemma prestart_irrigation_witness :
-  irr_fired (rd_date (irr_read tt 0 (mk_lines [90; 150; 200]))) 100 400 = [].
-Proof. vm_compute. reflexivity. Qed.
-
-Lemma c10_prestart_irrigation_refuted :
-  exists (B E : Z) (ds : list Z),
-    strict_from 0 ds /\ (exists d, In d ds /\ B <= d <= E) /\
-    irr_fired (rd_date (irr_read tt 0 (mk_lines ds))) B E = [].
-Proof.
-  exists 100, 400, [90; 150; 200]. rewrite prestart_irrigation_witness.
-  repeat split; try lia. exists 150. cbn. split; [auto | lia].
-Qed.
-
-Lemma c10_prestart_tillage_refuted :
-  exists (B E : Z) (ds : list Z),
-    ascending ds = true /\ (forall d, In d ds -> d < B) /\
-    till_fired (rd_date (till_read tt B (mk_lines ds))) one_step B E <> [].
-Proof.
-  exists 100, 400, [90; 99]. rewrite prestart_tillage_witness.
-  repeat split; try reflexivity; [|discriminate]. intros d [<-|[<-|[]]]; lia.
-Qed.
-
-Lemma cascade_example :
-  fits 100 [200; 200; 201] /\
-  fert_fired (rd_date (fert_read tt 100 tt (mk_lines [90; 200; 200; 201]))) one_step 100 400
-  = [(101, 1, 0); (201, 1, 1); (202, 1, 2); (203, 1, 3)].
-Proof. split; [apply no_overrun_iff_fits; cbn; repeat split; lia | vm_compute; reflexivity]. Qed.
